@@ -83,8 +83,14 @@ class Gen:
             is_style = isinstance(x, Tag) and x.wiki_markup in styles
             if is_style and nodes and isinstance(nodes[-1], Tag) and nodes[-1].wiki_markup in styles:
                 nodes.append(T(" " + self.word()))     # style runs are never adjacent to another apostrophe
+            bare = type(x).__name__ == "ExternalLink" and not x.brackets
+            if bare and nodes:
+                nodes.append(T(" "))
             nodes.append(x)
-            if rng.random() < 0.5:
+            last = _ == n - 1
+            if bare and not last:
+                nodes.append(T(" " + self.word()))      # white space ends a bare link (at the very end the enclosing construct does)
+            elif not bare and rng.random() < 0.5:
                 nodes.append(T(" " + self.word() if rng.random() < 0.5 else self.word()))
         return merge(nodes)
 
@@ -119,7 +125,14 @@ class Gen:
         if c < 0.6 and not nolinks:
             self.kinds.add("external link")
             url = W([T(rng.choice(["http://", "https://", "ftp://", "mailto:", "//"]) + rng.choice(["example.com", "a.b/c?d=e"]))])
-            if rng.random() < 0.7:
+            r = rng.random()
+            if r < 0.25 and not str(url).startswith("//"):
+                # a bare link: it starts after a non-word character and runs up to white space or to the closer / separator of
+                # the construct around it; no '=' in it (that would be a parameter name's end, a heading's end)
+                self.kinds.add("bare external link")
+                url = W([T(str(url).split("example.com")[0].split("a.b/")[0] + rng.choice(["example.com", "a.b/c", "x.org/~u"]))])
+                return ExternalLink(url, brackets=False)
+            if r < 0.75:
                 return ExternalLink(url, W(self.inline(depth - 1, True)), brackets=True)
             return ExternalLink(url, brackets=True)
         if c < 0.66:
@@ -169,8 +182,13 @@ class Gen:
         if not self.skip and not nostyle:
             self.kinds.add("style")
             tg, mk = rng.choice([("i", "''"), ("b", "'''")])
-            return Tag(W(([T(tg)])), W(merge([T(self.word())] + ([self.node(depth - 1, nolinks, True), T(" " + self.word())] if rng.random() < 0.5 else []))),
-                       wiki_markup=mk, closing_tag=W([T(tg)]))
+            body = [T(self.word())]
+            if rng.random() < 0.5:
+                inner = self.node(depth - 1, nolinks, True)
+                if type(inner).__name__ == "ExternalLink" and not inner.brackets:
+                    body.append(T(" "))
+                body += [inner, T(" " + self.word())]
+            return Tag(W(([T(tg)])), W(merge(body)), wiki_markup=mk, closing_tag=W([T(tg)]))
         return T(self.word())
 
     def document(self, depth):
